@@ -201,6 +201,10 @@ def body_summary(b, roles, subst):
     for kind, args, truth, site, raw, rawtruth in seg.conds:
         if kind in ('IT_AT_BEGIN', 'IT_AT_END') or (kind == 'OTHER' and root_of(raw)[0] in ('param', 'local', 'other')):
             continue
+        if kind in ('VALID_IT', 'SID_RANGE', 'BACKPTR_SELF', 'TRUE', 'RNG_RANGE', 'LV_AT_ORDER_END'):
+            continue        # decided by the representation invariant: not a decision of the algorithm
+        if kind in ('NONEMPTY', 'AUX_NONEMPTY') and (truth is True or roles.kind == 'maplist'):
+            continue        # implied by (or irrelevant next to) the presence decision; ut_*: part of the purge prologue
         if kind == 'EXPIRED' and isinstance(args[0], Ent) and args[0].kind == 'LV':
             continue
         if kind == 'OTHER':
@@ -334,12 +338,24 @@ def rule_c18(an, res):
                 for b in bodies:
                     rsum.add(body_summary(b, roles, subject_subst(b, m)))
                     check_plumbing(res, prop, cm, roles, m, top, b)
-                ok = rsum == ssum
+                # a decision about the call's own parameters taken once before the loop (const auto mode = peek ? ... : ...) splits the range
+                # method into top-level paths; each is compared with the single form's paths that agree with that decision
+                decided = {}
+                for c in top.conds:
+                    if c[0] in ('PEEK', 'UPD_OK', 'INS_OK'):
+                        decided.setdefault(c[0], c[2])
+                want = set()
+                for sm in ssum:
+                    agree = all(not (cc[0] == kd and cc[1] != tr) for cc in sm[0] for kd, tr in decided.items())
+                    if agree:
+                        want.add(sm)
+                ok = rsum == (want if decided else ssum)
+                ssum_cmp = want if decided else ssum
                 res.ob('R-SIB-BODY', ok=ok)
                 res.sample(dict(container=cm.name, range=m.key(), single=single.key(), body_paths=len(rsum), equal=ok), cap=14)
                 if not ok:
-                    only_r = sorted(rsum - ssum, key=str)
-                    only_s = sorted(ssum - rsum, key=str)
+                    only_r = sorted(rsum - ssum_cmp, key=str)
+                    only_s = sorted(ssum_cmp - rsum, key=str)
                     d = describe_diff(only_r, only_s)
                     site = site_of_seg(bodies[0].seg, m) if bodies else site_of_seg(top, m)
                     V(res, prop, 'R-SIB-BODY', cm, m.key(), 'loop body differs from %s: %s' % (single.key(), d[0]), site,
@@ -800,6 +816,17 @@ def raw_draw_is_bound_slot(seg, ent):
 
 
 def check_entities(res, prop, cm, roles, m, seg):
+    for e in seg.effs('STALE_POS'):
+        fe = seg.L.field_of_elem(e.loc)
+        if fe is not None and fe[1] in roles.backptrs:
+            res.ob('R-KIND', ok=False)
+            V(res, prop, 'R-KIND', cm, where_of(m, seg), 'stored position %s computed before the list was re-linked' % fe[1], e.site,
+              'path [%s]: %s := %s was evaluated before a later splice / erase: it denotes another entry\'s node'
+              % (' '.join(seg.valuation()), show(e.loc), show(e.val)))
+    _check_entities(res, prop, cm, roles, m, seg)
+
+
+def _check_entities(res, prop, cm, roles, m, seg):
     """R-KIND / R-UNBIND-VIA-BACKPTR: every slot the path touches is named by a sanctioned producer"""
     for e in seg.effects:
         ents = [getattr(e, 'ent', None)]
@@ -1194,7 +1221,8 @@ def check_victim_reads(res, prop, cm, roles, m, seg):
             if isinstance(x, tuple) and x[0] == 'q' and x[1] in ('back', 'front') and root_of(x[2])[0] == 'field' and not nonempty:
                 bad = x
             if isinstance(x, tuple) and x[0] == 'deref' and isinstance(x[1], tuple) and x[1][0] == 'q' and x[1][1] in ('begin', 'cbegin') \
-                    and root_of(x[1][2])[0] == 'field' and not nonempty and typeclass(cm.field_by_name.get(root_of(x[1][2])[1]).type) in ('multimap', 'map', 'list'):
+                    and root_of(x[1][2])[0] == 'field' and not nonempty and typeclass(cm.field_by_name.get(root_of(x[1][2])[1]).type) in ('multimap', 'map', 'list') \
+                    and root_of(x[1][2])[1] != roles.order:      # the slot / node list always holds `capacity` >= 1 nodes (R-CAPACITY-FIXED)
                 bad = x
         if bad is not None:
             res.ob('R-NONEMPTY-DEREF', ok=False)
